@@ -155,61 +155,39 @@ def rule_sites(c, prog, full=True):
             c.violation(R, f"site-missing|{s}", f"the {SITES[s]} ({s}) no longer applies PropertyMigration::perform: legacy properties are not migrated on that path", "", instance=inst)
         else:
             c.violation(R, f"site-new|{s}", f"{s} calls PropertyMigration::perform; it is not one of the four confirmed sites and must be compared with them", prog.fns[s].sp, instance=inst)
-    # binary reader: guard has_property(new_property_name), add under new name only
-    f = prog.fn("rbx_binary::deserializer::state::add_property")
-    ok_guard = ok_name = False
-    legacy_insert = False
-    for n in core.walk_fn(f):
-        if n.get("k") == "If":
-            cnd = core.strip(n["c"])
-            if cnd.get("k") == "Unary" and cnd["op"] == "!":
-                e = core.strip(cnd["e"])
-                if e.get("k") == "MethodCall" and e["m"] == "has_property" and core.strip(e["args"][0]).get("name") == "new_property_name":
-                    if any(core.callee(x) == PERFORM for x in core.walk(n["t"]) if x.get("k") == "MethodCall"):
-                        ok_guard = True
-                    for x in core.walk(n["t"]):
-                        if x.get("k") == "MethodCall" and x["m"] == "add_property":
-                            nm = core.strip(x["args"][0]).get("name")
-                            if nm == "new_property_name":
-                                ok_name = True
-                            else:
-                                legacy_insert = True
-    for st in core.walk_lets(f.body):
-        if st["pat"].get("name") == "new_property_name":
-            if core.place_root(st["init"]) != ("migration", ["new_property_name"]):
-                ok_name = False
-    if ok_guard and ok_name and not legacy_insert:
-        c.ok(R, "binary-reader:absent-guard")
-    else:
-        c.violation(R, "binary-reader|guard", f"add_property: migration must run only under `!builder.has_property(new_property_name)` and insert under the new name only (guard={ok_guard}, new-name={ok_name}, legacy-insert={legacy_insert}): otherwise an explicit new value can be overwritten depending on chunk order", f.sp, instance="binary-reader:absent-guard")
-    # xml reader: Entry::Vacant on props.entry(new_property_name)
-    f = prog.fn("rbx_xml::deserializer::deserialize_properties")
-    ok = False
-    for n in core.walk_fn(f):
-        if n.get("k") == "If" and core.strip(n["c"]).get("k") == "LetExpr":
-            le = core.strip(n["c"])
-            init = core.strip(le["init"])
-            if "Vacant" in core.pat_str(le["pat"]) and init.get("k") == "MethodCall" and init["m"] == "entry":
-                arg = core.place_root(init["args"][0])
-                if arg[0] == "new_property_name" and any(core.callee(x) == PERFORM for x in core.walk(n["t"]) if x.get("k") == "MethodCall"):
-                    # value inserted through the vacant entry
-                    if any(x.get("k") == "MethodCall" and x["m"] == "insert" and core.strip(x["recv"]).get("name") == "entry" for x in core.walk(n["t"])):
-                        ok = True
-    if ok:
-        c.ok(R, "xml-reader:vacant-entry")
-    else:
-        c.violation(R, "xml-reader|guard", "deserialize_properties: migration must insert through `Entry::Vacant` of props.entry(new_property_name) only", f.sp, instance="xml-reader:vacant-entry")
-    # writers: destination name is migration.new_property_name
-    f = prog.fn("rbx_xml::serializer::serialize_instance")
-    ok = False
-    for n in core.walk_fn(f):
-        if n.get("k") == "Assign" and core.strip(n["l"]).get("name") == "serialized_name":
-            if core.place_root(n["r"]) == ("migration", ["new_property_name"]):
-                ok = True
-    if ok:
-        c.ok(R, "xml-writer:new-name")
-    else:
-        c.violation(R, "xml-writer|name", "serialize_instance: a migrated value must be written under migration.new_property_name", f.sp, instance="xml-writer:new-name")
+    # the four sites, each run symbolically on a migrating scenario (rules/C15_sites.py)
+    from . import C15_sites as S
+    from sa import sym as _sym
+    results = {}
+    for label, fnc in (("binary-reader", S.site_binary_reader), ("xml-reader", S.site_xml_reader), ("xml-writer", S.site_xml_writer), ("binary-writer", S.site_binary_writer)):
+        try:
+            fn_, res = fnc(prog)
+            results[label] = (fn_, res)
+        except (_sym.Unsupported, core.AnalysisError) as e:
+            c.violation(R, f"{label}|cannot-analyse", f"the {label} migration site is outside the symbolic model: {e}", "", instance=f"{label}:paths")
+    c.sample({"rule": R, "site_summaries": {k: {kk: (sorted(vv) if isinstance(vv, set) else vv) for kk, vv in v[1].items()} for k, v in results.items()}})
+    for label in ("binary-reader", "xml-reader"):
+        if label not in results:
+            continue
+        f, r = results[label]
+        inst = f"{label}:absent-guard" if label == "binary-reader" else f"{label}:vacant-entry"
+        good = r["migrated_store"] >= 1 and not r["bad_name"] and r["unguarded"] == 0 and r["legacy_store_on_ok"] == 0
+        if good:
+            c.ok(R, inst)
+        else:
+            c.violation(R, f"{label}|guard", f"{core.short(f.path)}: on a migrating property the migrated value must be stored only under migration.new_property_name and only when that property is not present yet, and the legacy name must never be stored (stores of a migrated value: {r['migrated_store']}, under another name: {r['bad_name']}, without an absence test of the destination: {r['unguarded']}, legacy-name stores after a successful migration: {r['legacy_store_on_ok']}): otherwise an explicit new value can be overwritten depending on element / chunk order", f.sp, instance=inst)
+    if "xml-writer" in results:
+        f, r = results["xml-writer"]
+        if r["migrated_store"] >= 1 and not r["bad_name"] and r["legacy_store_on_ok"] == 0:
+            c.ok(R, "xml-writer:new-name")
+        else:
+            c.violation(R, "xml-writer|name", f"serialize_instance: a migrated value must be written under migration.new_property_name (and the legacy element not written as well): {r['bad_name']}, legacy writes after a successful migration: {r['legacy_store_on_ok']}", f.sp, instance="xml-writer:new-name")
+    if "binary-writer" in results:
+        f, r = results["binary-writer"]
+        if r["migrated_store"] >= 1:
+            c.ok(R, "binary-writer:migrates-value")
+        else:
+            c.violation(R, "binary-writer|value", "serialize_properties: the value chosen for a migrating column is no longer the result of PropertyMigration::perform", f.sp, instance="binary-writer:migrates-value")
     f = common.find_fn(prog, r"serializer::state::SerializerState.*::collect_type_info$")
     ok = False
     for n in core.walk_fn(f):
@@ -222,75 +200,31 @@ def rule_sites(c, prog, full=True):
         c.violation(R, "binary-writer|name", "collect_type_info: a migrating property must be filed under the descriptors of migration.new_property_name", f.sp, instance="binary-writer:new-name")
     if not full:
         return
-    # Err handling per site (sibling comparison, reported as a table)
-    table = {}
-    for s, what in SITES.items():
-        fn = prog.fn(s)
-        for n in core.walk_fn(fn):
-            if n.get("k") == "Match" and n.get("src") == "Normal" and core.strip(n["e"]).get("k") == "MethodCall" and core.callee(core.strip(n["e"])) == PERFORM:
-                for arm in n["arms"]:
-                    if "Err" in core.pat_str(arm["pat"]):
-                        b = core.strip(arm["body"])
-                        kinds = {x.get("k") for x in core.walk(b)}
-                        table[what] = "hard error (return Err)" if "Ret" in kinds else ("falls back to the unmigrated value" if b.get("k") == "Path" else "drops the property (log only)")
-            if n.get("k") == "If" and core.strip(n["c"]).get("k") == "LetExpr":
-                le = core.strip(n["c"])
-                if core.strip(le["init"]).get("k") == "MethodCall" and core.callee(core.strip(le["init"])) == PERFORM and "Ok" in core.pat_str(le["pat"]):
-                    table[what] = "keeps the legacy property unmigrated (if let Ok)"
+    # what happens when perform fails (sibling comparison, reported as a table)
+    table = {k: " / ".join(sorted(v[1]["err"])) or "(no failing path found)" for k, v in results.items()}
     c.sample({"rule": R, "perform_error_handling_by_site": table})
-    if len(set(table.values())) > 1 and len(table) == 4:
+    if len(table) == 4 and len(set(table.values())) > 1:
         c.violation(R, "err-handling|differs", f"the four sites treat a failed migration differently: {table}; together with an unmigratable legacy value this makes the result depend on the path (e.g. decodes from binary, errors from XML)", "", instance="err-handling")
     elif len(table) == 4:
         c.ok(R, "err-handling")
-    else:
-        c.violation(R, "err-handling|anchor", f"could not classify the Err handling of all four sites: {table}", "")
 
 
 def rule_win(c, prog):
     """XML writer: a migrated value is written only when the instance does not carry the new property itself."""
     R = "C15.win"
-    c.rule(R, "XML writer: every path of serialize_instance's property loop that writes a value produced by PropertyMigration::perform is taken only when `instance.properties` does not contain migration.new_property_name (explicit new value wins on write; the readers' guards are C15.sites, the binary writer's lookup order is C08.own)")
-    f = prog.fn("rbx_xml::serializer::serialize_instance")
-    loops = [core.as_for(n) for n in core.walk_fn(f, into_closures=False) if core.as_for(n) is not None and n.get("k") != "DropTemps"]
-    loops = [l for l in loops if any(x.get("k") == "MethodCall" and core.callee(x) == PERFORM for x in core.walk(l[2]))]
-    if len(loops) != 1:
-        raise core.AnchorMissing(f"serialize_instance: expected one loop applying PropertyMigration::perform, found {len(loops)}")
-
-    def role(n):
-        n0 = core.strip(n)
-        if n0.get("k") == "LetExpr":
-            init = core.strip(n0["init"])
-            if init.get("k") == "MethodCall" and core.callee(init) == PERFORM:
-                return "MIGRATED" if "Ok" in core.pat_str(n0["pat"]) else "!MIGRATED"
-            n0 = init
-        if n0.get("k") == "MethodCall" and n0["m"] in ("contains_key", "get") and "properties" in core.place_root(n0["recv"])[1] and "new_property_name" in core.fingerprint(n0["args"][0], 6):
-            return "HASNEW"
-        return "?" + core.fingerprint(n0, 4)
-
-    def eff(n):
-        n0 = core.strip(n)
-        if n0.get("k") == "Call" and (core.callee(n0) or "").endswith("types::write_value_xml"):
-            return "write"
-        if n0.get("k") == "MethodCall" and core.callee(n0) == PERFORM:
-            return "perform"
-        return "·"
-
-    tb = decision.Tabler(namer=role, effect_namer=eff)
-    paths = tb.paths(loops[0][2])
-    n = bad = 0
-    for p in paths:
-        cs = dict(p.conds)
-        if len(cs) != len(set(p.conds)):
-            continue
-        if cs.get("MIGRATED") is True and "write" in p.effects:
-            n += 1
-            if cs.get("HASNEW") is not False:
-                bad += 1
-    c.floor(R, n, 1, "paths writing a migrated value")
-    if bad:
-        c.violation(R, "xml-writer|explicit-not-checked", f"serialize_instance writes the migrated legacy value under migration.new_property_name on {bad} path(s) without testing that the instance lacks that property: with both present two elements of the same name are written, and for migrations whose new name sorts before the legacy name (e.g. MeshId -> MeshContent) the migrated value is read back instead of the explicit one", f.sp, instance="xml-writer:explicit-wins")
+    c.rule(R, "XML writer (symbolic paths of serialize_instance's property loop on a migrating property): every path that writes a value produced by PropertyMigration::perform assumes that `instance.properties` does not contain migration.new_property_name (explicit new value wins on write; the readers' guards are C15.sites, the binary writer's lookup order is C08.own)")
+    from . import C15_sites as S
+    from sa import sym as _sym
+    try:
+        f, r = S.site_xml_writer(prog)
+    except (_sym.Unsupported, core.AnalysisError) as e:
+        c.violation(R, "xml-writer|cannot-analyse", f"serialize_instance is outside the symbolic model: {e}", "", instance="xml-writer:explicit-wins")
+        return
+    c.floor(R, r["migrated_store"], 1, "paths writing a migrated value")
+    if r["unguarded"]:
+        c.violation(R, "xml-writer|explicit-not-checked", f"serialize_instance writes the migrated legacy value under migration.new_property_name on {r['unguarded']} path(s) without testing that the instance lacks that property: with both present two elements of the same name are written, and for migrations whose new name sorts before the legacy name (e.g. MeshId -> MeshContent) the migrated value is read back instead of the explicit one", f.sp, instance="xml-writer:explicit-wins")
     else:
-        c.ok(R, "xml-writer:explicit-wins", n)
+        c.ok(R, "xml-writer:explicit-wins", max(r["migrated_store"], 1))
 
 
 def run(c, prog):
